@@ -79,4 +79,29 @@ Idft(p, g, h, n, v) ==
     Trim([k \in 1..n |->
             FpMul(p, FpMul(p, ninv, FpPow(p, hinv, N(k - 1))),
                   FoldLeft(LAMBDA acc, i : FpAdd(p, acc, FpMul(p, v[i], FpPow(p, ginv, N((i - 1) * (k - 1))))), NZero, UpTo(1, n)))] \o <<>>)
+
+----------------------------------------------------------------------------
+(* Relations that CHARACTERISE the transforms and cost O(n) to evaluate, for sizes at which the O(n^2)     *)
+(* definitions above are out of reach of TLC.  MC_Poly checks on every toy domain that they are theorems   *)
+(* of the definitions (DftIdentity for every z of the field, LagrangeClosed against the product formula).  *)
+\* 1 + w + ... + w^(n-1)
+GeoSum(p, w, n) == IF w = NOne THEN NMod(N(n), p)
+                   ELSE FpMul(p, FpSub(p, FpPow(p, w, N(n)), NOne), FpInv(p, FpSub(p, w, NOne)))
+\* sum_i z^i w_i   (w a sequence, index 1 = exponent 0)
+PowerSum(p, w, z) == FoldLeft(LAMBDA acc, i : FpAdd(p, FpMul(p, acc, z), w[i]), NZero, DownTo(Len(w), 1))
+\* w = (v(h g^i))_{i<n}  implies, for every z:   sum_i z^i w_i = sum_j v_j h^j GeoSum(z g^j, n);
+\* conversely, if w is NOT the transform of v, the two sides differ as polynomials in z of degree < n, so they
+\* agree on at most n - 1 values of z
+DftIdentity(p, g, h, n, v, w, z) ==
+    LET st == FoldLeft(LAMBDA acc, j :        \* acc = <<sum, h^j, g^j>>
+                         <<FpAdd(p, acc[1], FpMul(p, FpMul(p, v[j], acc[2]), GeoSum(p, FpMul(p, z, acc[3]), n))),
+                           FpMul(p, acc[2], h), FpMul(p, acc[3], g)>>,
+                       <<NZero, NOne, NOne>>, UpTo(1, Len(v)))
+    IN  Len(w) = n /\ PowerSum(p, w, z) = st[1]
+\* L_i(tau) over the coset h<g>: Z(tau) x_i / (n h^n (tau - x_i)) off the domain, the indicator on it
+LagrangeClosed(p, g, h, n, i, tau) ==
+    LET xi == DomElem(p, g, h, i)  hn == FpPow(p, h, N(n)) IN
+    IF tau = xi THEN NOne
+    ELSE FpMul(p, FpMul(p, FpSub(p, FpPow(p, tau, N(n)), hn), xi),
+               FpInv(p, FpMul(p, FpMul(p, NMod(N(n), p), hn), FpSub(p, tau, xi))))
 =============================================================================
